@@ -345,13 +345,18 @@ theorem step_inv {x c : Nat} {s : St} (h : WInv x c s) (t : Tid) : WInv x c (ste
 theorem init_inv (nW K x c : Nat) : WInv x c (init nW K x c) := by
   refine ⟨?_, ?_, ?_, ?_⟩
   · apply C02.init_inv
-    simp only [compatB, List.all_eq_true]
-    intro p hp w hw q hq op hop
-    have e1 := List.eq_of_mem_replicate hp; subst e1
-    have e2 := List.eq_of_mem_replicate hq; subst e2
-    simp at hw; subst hw
-    simp [relProg] at hop; subst hop
-    simp [NKind.accepts]
+    refine compatB_of ?_ ?_
+    · simp only [acceptB, List.all_eq_true]
+      intro p hp w hw q hq op hop
+      have e1 := List.eq_of_mem_replicate hp; subst e1
+      have e2 := List.eq_of_mem_replicate hq; subst e2
+      simp at hw; subst hw
+      simp [relProg] at hop; subst hop
+      simp [NKind.accepts]
+    · intro q hq op hop c' c0 r e
+      have e2 := List.eq_of_mem_replicate hq; subst e2
+      simp [relProg] at hop; subst hop
+      cases e
   · intro j n hj
     simp only [init, C02.init, List.getElem?_map, Option.map_eq_some_iff] at hj
     obtain ⟨q, hq, rfl⟩ := hj
